@@ -85,7 +85,8 @@ def synchronous(res):
         return True
     if max(res.get("max_delivery_lag_ms", 0), res.get("max_sched_lag_ms", 0)) > ph / 4:
         return False
-    if not res.get("down"):
+    if not res.get("down") and not res.get("link_faults"):
+        # (with a link fault in the schedule a node that misses a bundle is driven by the phase timers: that is the run to judge)
         his = [n["done_hi_ms"] for n in res.get("nodes", {}).values() if n.get("completed")]
         if his and max(his) >= res["kickoff_ms"] + ph - 100:
             return False
